@@ -368,6 +368,12 @@ pub fn main_for(pid: &str) {
     if let Some(path) = &a.replay {
         let text = std::fs::read_to_string(path).expect("replay file");
         for line in text.lines().filter(|l| !l.trim().is_empty()) {
+            if line.split(' ').nth(1) == Some("enc") {
+                let parts: Vec<&str> = line.split(" | ").collect();
+                let bytes: Vec<u8> = parts[1].split('.').filter(|t| !t.is_empty()).map(|t| t.parse().unwrap()).collect();
+                run_enc_case(line.split(' ').next().unwrap(), &bytes, &mut out, &mut stats);
+                continue;
+            }
             let c = parse_case_line(line);
             run_case(pid, &c, &mut out, &mut stats);
         }
@@ -424,6 +430,72 @@ pub fn main_for(pid: &str) {
             }
         }
     }
+    if pid == "C02" {
+        // which encoding label parse_bytes takes (src/encoding.rs; Model/Encoding.v chosen_label): one byte 0xE9 in a document
+        // whose XML declaration, in any well-formed spelling, names one of a set of single-byte encodings that decode it to
+        // different characters — with further text that looks like an encoding declaration where it is none
+        for k in 0..a.n {
+            let mut r = base.fork(0x0e0c_0000 + k as u64);
+            let bytes = gen_enc_case(&mut r);
+            run_enc_case(&format!("e{}", k), &bytes, &mut out, &mut stats);
+        }
+    }
     for (c, v) in choices { stats.add(&format!("spelling.{}", c), v); }
     out.finish(&stats);
+}
+
+const ENC_LABELS: &[&str] = &["ISO-8859-1", "windows-1252", "ISO-8859-2", "koi8-r", "KOI8-R", "windows-1251", "ibm866", "ISO-8859-7", "macintosh", "ISO-8859-5", "UTF-8", "utf-8", "us-ascii", "latin1", "bogus-label"];
+
+fn gen_enc_case(r: &mut Rng) -> Vec<u8> {
+    let mut v: Vec<u8> = vec![];
+    if r.chance(1, 6) { v.extend_from_slice(&[0xEF, 0xBB, 0xBF]); }
+    let lure = |r: &mut Rng| -> String {
+        let q = if r.chance(1, 2) { '"' } else { '\'' };
+        format!("{}{}{}{}{}", r.pick(&["encoding", "charset"]), r.pick(&["=", " = ", " ="]), q, r.pick(ENC_LABELS), q)
+    };
+    match r.below(8) {
+        // a declaration with an encoding declaration, in any spelling
+        0..=4 => v.extend_from_slice(decl_spelling(r.next(), Some(*r.pick(ENC_LABELS))).as_bytes()),
+        // a declaration without one
+        5 => v.extend_from_slice(decl_spelling(r.next(), None).as_bytes()),
+        // a processing instruction that merely starts like one
+        6 => v.extend_from_slice(format!("<?xml-stylesheet {}?>", lure(r)).as_bytes()),
+        // no declaration
+        _ => {}
+    }
+    // text that looks like an encoding declaration further down
+    match r.below(5) {
+        0 => v.extend_from_slice(format!("<!-- {} -->", lure(r)).as_bytes()),
+        1 => v.extend_from_slice(format!("<?note {}?>", lure(r)).as_bytes()),
+        _ => {}
+    }
+    let attr = if r.chance(1, 3) { format!(" {}", lure(r)) } else { String::new() };
+    v.extend_from_slice(format!("<{}{}>", r.pick(&["p", "pp", "enc", "meta"]), attr).as_bytes());
+    v.push(0xE9);
+    if r.chance(1, 4) { v.extend_from_slice(lure(r).as_bytes()); }
+    // the end tag repeats the name
+    let name_start = v.iter().rposition(|b| *b == b'<').unwrap();
+    let name: Vec<u8> = v[name_start + 1..].iter().take_while(|b| b.is_ascii_alphabetic()).cloned().collect();
+    v.extend_from_slice(b"</"); v.extend_from_slice(&name); v.push(b'>');
+    v
+}
+
+fn run_enc_case(id: &str, bytes: &[u8], out: &mut Out, stats: &mut Stats) {
+    let dotted: Vec<String> = bytes.iter().map(|b| b.to_string()).collect();
+    let line = format!("{} enc doc {} | {} | -", id, bytes.len(), dotted.join("."));
+    out.case(&line);
+    stats.bump("class.enc");
+    stats.case(&line, true);
+    let mut x = Xot::new();
+    let obs = match guard(|| x.parse_bytes(bytes)) {
+        Ok(Ok(root)) => {
+            // the character the byte 0xE9 was decoded to: the first character of the document element's text
+            let el = x.document_element(root).unwrap();
+            match x.text_content_str(el).and_then(|t| t.chars().next()) { Some(ch) => format!("ENC {}", ch as u32), None => "ENC none".into() }
+        }
+        Ok(Err(_)) => "ENC rejected".into(),
+        Err(()) => { out.fail(id, "parse-panic", "parse_bytes panicked"); "ENC panic".into() }
+    };
+    stats.bump(&format!("enc.{}", obs.replace(' ', "_")));
+    out.imp(&format!("{} {}", id, obs));
 }
